@@ -127,7 +127,12 @@ theorem spec_invalid_branch_keeps_annotations (env : VEnv) (hwf : EnvWF env) (hs
   rw [h] at this
   exact this
 
-/-! ## unevaluatedProperties / unevaluatedItems see exactly the complement -/
+/-! ## unevaluatedProperties / unevaluatedItems see exactly the complement
+
+The statements below are about the keyword functions and the evaluator's loops, for an arbitrary schema object.  One step of
+the Spec applies the keyword functions to `Spec.vocab env.draft n`: under 2020-12 that is `n` itself (`C02.draft2020_vocab`),
+under draft-07 the two keywords are unknown and absent (`C02.draft7_unevaluated`, finding D27) — so, read as statements about
+validation, they are statements about 2020-12. -/
 
 /-- Spec: the subschema is applied to the values of exactly the keys outside `ev.props` -/
 theorem unevaluatedProps_spec (sub : NodeId → Json → Spec.Out) (n : Node) (kvs : List (String × Json)) (ev : Spec.Ev)
